@@ -7,9 +7,9 @@ import glob, json, os, re, subprocess, sys
 
 kind = sys.argv[1]
 sub = "_seed" if kind in ("seeds", "seeds5", "seeds6") else "_twin"
-pref = {"seeds": "s", "seeds5": "u", "seeds6": "w", "twins": "t", "twins3": "v"}[kind]
-suffix = {"seeds5": "-r5", "seeds6": "-r6", "twins3": "-r3"}.get(kind, "")
-rnd = {"seeds": "4", "seeds5": "5", "seeds6": "6", "twins": "twins-2", "twins3": "twins-3"}[kind]
+pref = {"seeds": "s", "seeds5": "u", "seeds6": "w", "twins": "t", "twins3": "v", "twins4": "x"}[kind]
+suffix = {"seeds5": "-r5", "seeds6": "-r6", "twins3": "-r3", "twins4": "-r4"}.get(kind, "")
+rnd = {"seeds": "4", "seeds5": "5", "seeds6": "6", "twins": "twins-2", "twins3": "twins-3", "twins4": "twins-4"}[kind]
 wts = [f"/tmp/wt_{pref}{x}" for x in sys.argv[2:]] or sorted(glob.glob(f"/tmp/wt_{pref}[0-9][0-9]"))
 
 
